@@ -91,6 +91,7 @@ def check(prog: Program, run: Run) -> None:
     _both_directions(prog, run)
     _case_coverage(prog, run)
     _decoded_value_source(prog, run)
+    mux_first_match(prog, run, "C01.R4")
     _same_walk(prog, run)
     _terminator(prog, run)
     from . import c02
@@ -845,6 +846,58 @@ def _cases(f: FuncInfo) -> Dict[str, Set[str]]:
             out["else"] = set()
             cur = None
     return out
+
+
+def mux_first_match(prog: Program, run: Run, R: str = "C01.R4") -> None:
+    """CASE ranges of a multiplexer may overlap; ODX takes the first CASE that contains the key.
+    The encoder (case given by its key value) and the decoder select in the same way."""
+    pick: Dict[str, Tuple[str, int]] = {}
+    for side, name in (("encode", "encode_into_pdu"), ("decode", "decode_from_pdu")):
+        f = prog.func(f"Multiplexer.{name}")
+        for lp in walk_no_nested(f.node):
+            if not (isinstance(lp, ast.For) and ast.unparse(lp.iter) == "self.cases"):
+                continue
+            tests = [x for x in ast.walk(lp) if isinstance(x, ast.If) and any(
+                isinstance(c, ast.Compare) and any(isinstance(o, (ast.LtE, ast.GtE, ast.Lt, ast.Gt))
+                                                   for o in c.ops) for c in ast.walk(x.test))]
+            if not tests:
+                continue
+            t = tests[0]
+            has_break = any(isinstance(y, (ast.Break, ast.Return)) for b in t.body
+                            for y in ast.walk(b))
+            appends = [y for b in t.body for y in ast.walk(b) if isinstance(y, ast.Call) and
+                       call_name(y) == "append" and isinstance(y.func, ast.Attribute) and
+                       isinstance(y.func.value, ast.Name)]
+            assigns = [y for b in t.body for y in ast.walk(b) if isinstance(y, ast.Assign) and
+                       isinstance(y.targets[0], ast.Name)]
+            how = "unknown"
+            if has_break:
+                how = "first"
+            elif appends:
+                lst = appends[0].func.value.id
+                idx = [y for y in walk_no_nested(f.node) if isinstance(y, ast.Subscript) and
+                       isinstance(y.value, ast.Name) and y.value.id == lst and isinstance(
+                           y.ctx, ast.Load)]
+                if idx and all(ast.unparse(y.slice) == "0" for y in idx):
+                    how = "first"
+                elif idx and all(ast.unparse(y.slice) == "-1" for y in idx):
+                    how = "last"
+            elif assigns:
+                how = "last"
+            pick[side] = (how, lp.lineno)
+    if len(pick) < 2:
+        raise AnalysisError("Multiplexer: case selection loops over self.cases not found")
+    (he, le), (hd, ld) = pick["encode"], pick["decode"]
+    rel = prog.func("Multiplexer.encode_into_pdu").module.rel
+    if "unknown" in (he, hd) or he == hd == "first":
+        run.ok(R, "Multiplexer", f"overlapping CASE ranges: encoder takes the {he} match, decoder "
+               f"the {hd} match", f"{rel}:{le}")
+    else:
+        run.violation(R, "Multiplexer", "case-selection-differs",
+                      f"for a key inside two overlapping CASE ranges the encoder takes the {he} "
+                      f"matching case and the decoder the {hd} one (ODX: the first): the content "
+                      "is encoded with one structure and decoded with another",
+                      f"{rel}:{le}")
 
 
 def _derives_from(fn: ast.AST, e: ast.AST, callee: str, seen: Optional[Set[str]] = None) -> bool:
